@@ -87,6 +87,7 @@ struct Desc
     bool open = false;
     std::string path;
     int ctx = 0;
+    uint64_t pos = 0; // file position for write/read/lseek
 };
 
 struct State
@@ -406,6 +407,7 @@ extern "C"
         S.fds[fd].open = true;
         S.fds[fd].path = norm;
         S.fds[fd].ctx = S.ctx;
+        S.fds[fd].pos = 0;
         ev.fd = (int)fd;
         ev.result = (int64_t)fd;
         S.log.push_back(ev);
@@ -563,6 +565,132 @@ extern "C"
         sim::probe("n.fs_pwrite");
         return (ssize_t)k;
     }
+
+    // ---- positional variants: code that uses write/lseek instead of pwrite
+    // stays on the simulated files (same faults, same ownership checks)
+    ssize_t sim_write(int fd, const void* buf, size_t n)
+    {
+        if (fd >= 0 && fd <= 2)
+            return (ssize_t)n; // the environment's descriptors: swallowed
+        if (fd < 0 || (size_t)fd >= S.fds.size() || !S.fds[(size_t)fd].open)
+            return sim_pwrite(fd, buf, n, 0); // reports the bad descriptor
+        ssize_t k = sim_pwrite(fd, buf, n, (off_t)S.fds[(size_t)fd].pos);
+        if (k > 0)
+            S.fds[(size_t)fd].pos += (uint64_t)k;
+        return k;
+    }
+
+    off_t sim_lseek(int fd, off_t off, int whence)
+    {
+        if (fd < 3 || (size_t)fd >= S.fds.size() || !S.fds[(size_t)fd].open) {
+            errno = EBADF;
+            return (off_t)-1;
+        }
+        Desc& d = S.fds[(size_t)fd];
+        int64_t base = whence == SEEK_SET
+                         ? 0
+                         : whence == SEEK_CUR
+                             ? (int64_t)d.pos
+                             : (int64_t)S.files[d.path].size();
+        if (base + off < 0) {
+            errno = EINVAL;
+            return (off_t)-1;
+        }
+        d.pos = (uint64_t)(base + off);
+        return (off_t)d.pos;
+    }
+
+    ssize_t sim_pread(int fd, void* buf, size_t n, off_t off)
+    {
+        if (fd < 3 || (size_t)fd >= S.fds.size() || !S.fds[(size_t)fd].open ||
+            off < 0) {
+            errno = EBADF;
+            return -1;
+        }
+        Desc& d = S.fds[(size_t)fd];
+        uint64_t sz = S.files[d.path].size();
+        if ((uint64_t)off >= sz)
+            return 0;
+        uint64_t k = std::min<uint64_t>(n, sz - (uint64_t)off);
+        simfs::read(d.path, (uint64_t)off, k, (uint8_t*)buf);
+        return (ssize_t)k;
+    }
+
+    ssize_t sim_read(int fd, void* buf, size_t n)
+    {
+        if (fd < 3 || (size_t)fd >= S.fds.size() || !S.fds[(size_t)fd].open) {
+            errno = EBADF;
+            return -1;
+        }
+        ssize_t k = sim_pread(fd, buf, n, (off_t)S.fds[(size_t)fd].pos);
+        if (k > 0)
+            S.fds[(size_t)fd].pos += (uint64_t)k;
+        return k;
+    }
+
+    int sim_fsync(int fd)
+    {
+        if (fd < 3 || (size_t)fd >= S.fds.size() || !S.fds[(size_t)fd].open) {
+            errno = EBADF;
+            return -1;
+        }
+        return 0;
+    }
+
+    int sim_ftruncate(int fd, off_t len)
+    {
+        if (fd < 3 || (size_t)fd >= S.fds.size() || !S.fds[(size_t)fd].open ||
+            len < 0) {
+            errno = EBADF;
+            return -1;
+        }
+        File& f = S.files[S.fds[(size_t)fd].path];
+        if ((uint64_t)len == f.size())
+            return 0;
+        // keep the prefix
+        uint64_t keep = std::min<uint64_t>((uint64_t)len, f.size());
+        std::vector<uint8_t> head;
+        if (keep <= SPARSE_LIMIT) {
+            head.resize((size_t)keep);
+            if (keep)
+                simfs::read(S.fds[(size_t)fd].path, 0, keep, head.data());
+            f.clear();
+            f.data = head;
+            f.data.resize((size_t)std::min<uint64_t>((uint64_t)len, SPARSE_LIMIT), 0);
+            if ((uint64_t)len > SPARSE_LIMIT) {
+                make_sparse(f);
+                f.ssize = (uint64_t)len;
+            }
+        } else {
+            // sparse and large: drop chunks beyond the new end
+            for (auto it = f.chunks.begin(); it != f.chunks.end();)
+                if (it->first * CHUNK >= (uint64_t)len)
+                    it = f.chunks.erase(it);
+                else
+                    ++it;
+            f.ssize = (uint64_t)len;
+        }
+        f.gen++;
+        return 0;
+    }
+
+    // LFS aliases (objcopy wants one target per redefinition)
+    int sim_open(const char* path, int flags, ...);
+    int sim_open64(const char* path, int flags, ...)
+    {
+        return sim_open(path, flags, 0666);
+    }
+    ssize_t sim_pwrite64(int fd, const void* b, size_t n, off_t o)
+    {
+        return sim_pwrite(fd, b, n, o);
+    }
+    off_t sim_lseek64(int fd, off_t o, int w) { return sim_lseek(fd, o, w); }
+    ssize_t sim_pread64(int fd, void* b, size_t n, off_t o)
+    {
+        return sim_pread(fd, b, n, o);
+    }
+    int sim_fdatasync(int fd) { return sim_fsync(fd); }
+    int sim_ftruncate64(int fd, off_t len) { return sim_ftruncate(fd, len); }
 
     int sim_flock(int fd, int op)
     {
